@@ -13,14 +13,16 @@ AGGR = ('SUM', 'MAX', 'MIN')
 
 
 def occurrences(e, conds=(), icpt=False, swallowed=False, agg=False,
-                weak=False):
+                weak=()):
     """Yield (ref_or_name_node, conds, intercepted, swallowed) per occurrence.
 
     conds        lazy conditions under which the occurrence is evaluated
     intercepted  inside the value argument of IFERROR / IFNA
     swallowed    inside ISERROR(...) / COUNT(...): consumed, error not passed
-    weak         a later IFS condition: consumed by the cycle analysis, but an
-                 error in it shows only if every earlier condition is false
+    weak         a later IFS condition: consumed by the cycle analysis, but
+                 evaluated only if every earlier condition is false - the
+                 tuple of those conditions (as 'if' conds wanted False), empty
+                 for any other occurrence
     """
     k = e[0]
     if k == 'an':     # spill reference: depends on the cell at the anchor
@@ -55,8 +57,9 @@ def occurrences(e, conds=(), icpt=False, swallowed=False, agg=False,
                 # *branches* only); values are lazy
                 # (an error in a later condition is only seen if every
                 # earlier condition is false: not an always-propagating edge)
-                yield from occurrences(a[i], conds, icpt, swallowed, False,
-                                       weak or i > 0)
+                yield from occurrences(
+                    a[i], conds, icpt, swallowed, False,
+                    weak + tuple(('if', a[j], False) for j in range(0, i, 2)))
                 yield from occurrences(a[i + 1], acc + (('if', a[i], True),),
                                        icpt, swallowed, False, weak)
                 acc = acc + (('if', a[i], False),)
